@@ -17,6 +17,7 @@ pub const MEM: u32 = 8;
 pub const SCRATCH: u32 = 16;
 
 thread_local! {
+    static CAPS: Cell<Option<crate::analysis::limits::AnalysisCaps>> = const { Cell::new(None) };
     static SINK: RefCell<Option<Vec<String>>> = const { RefCell::new(None) };
     static LEVEL: Cell<u32> = const { Cell::new(0) };
 }
@@ -90,4 +91,14 @@ pub fn json_str(s: &str) -> String {
     }
     out.push('"');
     out
+}
+
+/// Overrides the analysis caps on this thread (`None` restores the defaults).
+pub fn set_analysis_caps(caps: Option<crate::analysis::limits::AnalysisCaps>) {
+    CAPS.with(|c| c.set(caps));
+}
+
+/// The analysis caps override, if one is installed.
+pub fn analysis_caps() -> Option<crate::analysis::limits::AnalysisCaps> {
+    CAPS.with(Cell::get)
 }
